@@ -85,7 +85,7 @@ def run_senders(agents, max_ms=400000):
 
 # --- strategies ----------------------------------------------------------------------------
 
-LENGTHS = [1, 23, 24, 255, 256, 257, 1000, 3000]
+LENGTHS = [1, 23, 24, 255, 256, 257, 1000, 3000, 65507 - 40, 70000]
 
 
 @st.composite
@@ -149,8 +149,6 @@ def execute(case, out):
                     break
                 plen += diff
                 data = make_bundle(plen, int(send['seed']) * 4 + idx)
-        if mtu is None and len(data) > simudp.UDP_MAX:
-            continue
         ag = senders[send['peer']]
         bid = ag.call('send_bundle_data', dbus.ByteArray(data), dbus.Dictionary({'address': RECV[0], 'port': RECV[1]}, signature='sv'))
         originals.append((send['peer'], bid, data))
@@ -186,13 +184,15 @@ def execute(case, out):
             elif kind[0] == 'bundle' and kind[1] == data:
                 whole.append(dg)
         where = 'bundle %d octets, mtu %s, transfer %s' % (len(data), mtu, bid)
-        if mtu is None or len(data) <= mtu:
+        # no datagram can be larger than UDP allows, whatever is (not) configured
+        emtu = simudp.UDP_MAX if mtu is None else min(mtu, simudp.UDP_MAX)
+        if len(data) <= emtu:
             # it fits (also when it is exactly as large as the MTU): one datagram
             if len(whole) != 1 or segs:
                 out.fail('unsegmented-count', 'expected the bundle in one datagram, saw %d whole and %d segments (%s)' % (len(whole), len(segs), where))
             continue
-        if whole and mtu is not None and any(len(d['data']) > mtu for d in whole):
-            out.fail('oversized-datagram', 'a %d-octet datagram was sent, mtu %d (%s)' % (len(whole[0]['data']), mtu, where))
+        if whole and any(len(d['data']) > emtu for d in whole):
+            out.fail('oversized-datagram', 'a %d-octet datagram was sent, limit %d (%s)' % (len(whole[0]['data']), emtu, where))
         if not segs:
             if not whole:
                 out.fail('nothing-sent', 'no datagram at all was sent (%s)' % where)
@@ -202,8 +202,8 @@ def execute(case, out):
         pos = 0
         rebuilt = b''
         for dg, (_k, _xid, total, off, chunk) in sorted(segs, key=lambda x: x[1][3]):
-            if len(dg['data']) > mtu:
-                out.fail('oversized-datagram', 'a %d-octet segment datagram was sent, mtu %d (%s)' % (len(dg['data']), mtu, where))
+            if len(dg['data']) > emtu:
+                out.fail('oversized-datagram', 'a %d-octet segment datagram was sent, limit %d (%s)' % (len(dg['data']), emtu, where))
             if total != len(data):
                 out.fail('segment-total', 'segment announces total %d, bundle has %d (%s)' % (total, len(data), where))
             if off != pos:
